@@ -21,6 +21,11 @@ CH = 'adsg_core/graph/choices.py:'
 CC = 'adsg_core/graph/choice_constraints.py:'
 
 CASES = [
+    (INC + 'get_mod_nodes_remove_incompatibilities@confirmed-pairs', 'break', "        if edge[0] in confirmed_nodes and edge[1] in confirmed_nodes:\n            infeasible_incompatibility_edges.add(edge)", "        if edge[0] in confirmed_nodes or edge[1] in confirmed_nodes:\n            infeasible_incompatibility_edges.add(edge)"),
+    (INC + 'get_mod_nodes_remove_incompatibilities@confirmed-pairs', 'break', "        if edge[0] in confirmed_nodes:\n            confirmed_incompatibility_edges.add(edge)", "        if edge[1] in confirmed_nodes:\n            confirmed_incompatibility_edges.add(edge)"),
+    (INC + 'get_mod_nodes_remove_incompatibilities@confirmed-pairs', 'break', "            removed_nodes.add(edge[1])", "            removed_nodes.add(edge[0])"),
+    (INC + 'get_mod_nodes_remove_incompatibilities@confirmed-pairs', 'break', "    if len(infeasible_incompatibility_edges) > 0:", "    if len(infeasible_incompatibility_edges) > 1:"),
+    (INC + 'get_mod_nodes_remove_incompatibilities@confirmed-pairs', 'break', "        if get_edge_type(edge) != EdgeType.INCOMPATIBILITY:\n            continue\n\n        # If both nodes", "        if get_edge_type(edge) == EdgeType.DERIVES:\n            continue\n\n        # If both nodes"),
     (CC + 'get_valid_idx_combinations.<locals>._check_gte', 'break', "                if row[i_value] < row[i_value-1]:", "                if row[i_value] <= row[i_value-1]:"),
     (CC + 'get_valid_idx_combinations.<locals>._check_gt', 'break', "                if row[i_value] <= row[i_value-1]:", "                if row[i_value] < row[i_value-1]:"),
     (CC + 'get_valid_idx_combinations.<locals>._check_gt', 'break', "            for i_value in range(1, len(row)):\n                if row[i_value] <= row[i_value-1]:", "            for i_value in range(2, len(row)):\n                if row[i_value] <= row[i_value-1]:"),
